@@ -3,6 +3,12 @@
 REPO_FIX_COMMITS = ["04f98b2", "9ce180e", "cfc2ed2", "1d8dc7e", "8ef3efb", "a7c5d9c", "2fb9873", "812fbc2", "343713a", "2036f84", "8402cd8", "1e36e27", "ed92c78", "c0485e3", "a0c4921", "9103dfd", "b4aac6a", "62476ec"]
 
 CHECKS = {
+    "C09": {
+        "technique": "bounded-exhaustive routing matrix (proxy scheme x destination scheme x forwarding flag x proxy/origin certificate state x proxy headers x destination host form x retries, all CONNECT reply sequences of length <= 2 over 200/403/407/502/garbage/EOF, server-closed tunnels between 2-3 requests, optional http->https redirect hop) + Hypothesis mixes, on the in-memory proxy/origin network with the null TLS layer; oracle: two observers (what the proxy parsed, what the origin parsed inside the tunnel) against the documented routing table",
+        "text": "ProxyManager is driven through every cell; the proxy's and the origin's logs are checked for: CONNECT to exactly host:port before any https request unless forwarding was opted into on an https proxy, inner TLS asking for the destination name with verification on, origin-form inside the tunnel and absolute-form at the proxy, proxy headers present at the proxy and absent inside the tunnel (also after a redirect hop), no HTTP byte after a refused CONNECT or a failed proxy/origin verification together with ProxyError/SSLError, and a fresh CONNECT on a new socket after the server closed a pooled tunnel.",
+        "note": "Trusts vlib/world.py and vlib/nulltls.py; certificate verification is emulated from identity flags (real TLS is C07). A proxy that answers CONNECT with garbage or EOF may surface as any urllib3 error.",
+        "design_ref": "DESIGN.md section 4, C09",
+    },
     "C10": {
         "technique": "exhaustive single-position splice of a hostile alphabet into a request template + Hypothesis-generated requests at three entry points on an in-memory socket; oracle: dichotomy (raised and zero bytes written | independent structural wire reader consumes the whole stream as exactly one request equal to the requested parts), RFC 9113 reference predicate for HTTP/2 header validity",
         "text": "Every alphabet symbol is spliced at every position of method, URL parts, header names and values and generated mixes are sent through HTTPConnection.request, HTTPConnectionPool.urlopen (relative and absolute URL) and PoolManager.request; everything the sockets received is re-read by a structural parser written for this work and compared field by field with what was asked; HTTP2Connection.putheader is compared with an RFC 9113 validity predicate over exhaustive short names/values.",
